@@ -44,8 +44,9 @@ b("should_gzip_case_insensitive", [
     ("src/lib.rs", '        } else if coding == "identity" {', '        } else if coding.eq_ignore_ascii_case("identity") {'),
 ])
 b("dir_error_kinds_rebuilt", [
-    ("src/dir.rs", "        if fd < 0 {\n            return Err(Error::last_os_error());\n        }\n        Ok(unsafe { File::from_raw_fd(fd) })", "        if fd < 0 {\n            let e = Error::last_os_error();\n            return Err(Error::new(e.kind(), \"open failed\"));\n        }\n        Ok(unsafe { File::from_raw_fd(fd) })"),
-], "errors keep their kind but lose the raw errno")
+    ("src/dir.rs", "        .unwrap_or_else(|e: tokio::task::JoinError| Err(Error::new(ErrorKind::Other, e)))",
+     "        .unwrap_or_else(|e: tokio::task::JoinError| Err(Error::new(ErrorKind::Other, e)))\n        .map_err(|e| Error::new(e.kind(), e.to_string()))"),
+], "errors returned by get() keep their kind but lose the raw errno (rebuilt at the API boundary, so that the crate's own errno tests - ENOENT, ENAMETOOLONG - are not affected)")
 b("reader_takes_all_ready_chunks", [
     ("src/chunker.rs", "                if let Some(c) = ready.pop_front() {\n                    ready_bytes -= c.len();", "                if let Some(mut c) = ready.pop_front() {\n                    while let Some(next) = ready.pop_front() {\n                        c.extend_from_slice(&next);\n                    }\n                    ready_bytes = 0;"),
 ], "consumer coalesces everything queued into one frame")
